@@ -41,3 +41,36 @@ def run (s : List α) : List (Op α) → List α × List (Out α)
 def check (s : List α) (op : Op α) (o : Out α) : Bool := decide ((step s op).2 = o)
 
 end GoguVerif.Spec.C06
+
+/-!
+## The recorded deviation of the linked stack (known findings F12a / F12b)
+
+`S_patched`: the abstract LIFO with exactly the two listed deviations of `stack.LStack` admitted.
+`xs` is the sequence the underlying list holds (never empty), `n` the element counter.
+* F12a `lstack.pop-returns-element-beneath`: with ≥ 2 elements held, `Pop` removes the top element
+  but returns the one beneath it.
+* F12b `lstack.pop-keeps-bottom`: with one element held, `Pop` returns the zero value and the element
+  stays visible to `Peek`/`Search` (only the counter goes to 0).
+-/
+namespace GoguVerif.Spec.C06.Patched
+
+structure St (α : Type) where
+  xs : List α
+  n : Int
+deriving Repr, DecidableEq
+
+variable {α : Type} [Inhabited α] [DecidableEq α]
+
+def ofList (s : List α) : St α := { xs := s, n := s.length }
+
+def step (p : St α) : Op α → St α × Out α
+  | .push x => ({ xs := p.xs ++ [x], n := p.n + 1 }, .unit)
+  | .pop =>
+    let n' := if p.n > 0 then p.n - 1 else p.n
+    if p.xs.length ≤ 1 then ({ p with n := n' }, .val default)                       -- F12b
+    else ({ xs := p.xs.dropLast, n := n' }, .val (p.xs.dropLast.getLast?.getD default))  -- F12a
+  | .peek => (p, .val (p.xs.getLast?.getD default))
+  | .search x => (p, .bool (decide (x ∈ p.xs)))
+  | .size => (p, .int p.n)
+
+end GoguVerif.Spec.C06.Patched
